@@ -77,6 +77,13 @@ CHECKS.update({
             "note": "Samples the configuration grid; the version-string grid (4x13x5 + specials) is covered by the thorough tier. Bare integer 2 and strings like 'v2.0' are left unchecked as the statement does not fix their meaning."},
 })
 
+CHECKS.update({
+    "C20": {"category": "exploration", "design_ref": "DESIGN.md 5/C20",
+            "technique": "deterministic simulation with fault injection: scripted device fault sequences and probe-latency patterns on a simulated clock against real connect loops, reader threads / asyncio protocols; history oracle over attempt, connection and callback logs",
+            "text": "Seeded fault sequences (connect failures of three kinds, read/write errors, peer close/reset, disconnect, stop) and TCP probe-latency patterns on the simulated clock for all four device flavours; the oracle counts callbacks per established/lost connection, checks reconnect spacing, silence after stop() and both sides of the watchdog timing.",
+            "note": "Trusted base: kernel, fake serial/socket/select, SimLoop and the asyncio transport stubs (documented callback contract). Timing bounds carry +-5% + 60 ms slack; the asyncio watchdog bound is 3 rt + 0.5 (it looks once per rt + 0.1 s). Transport.disconnect() outside stop() is observed as a probe only."},
+})
+
 NOT_APPLICABLE = {
     "C02": "pure function of its arguments (Message.decode/encode/copy): no schedule, clock, I/O, fault or history can change the result, so deterministic simulation has nothing to decide (DESIGN.md section 6)",
     "C03": "acceptance is a pure function of (version, line); an exhaustive header x payload-class product is table enumeration, not a search over schedules or faults (DESIGN.md section 6)",
